@@ -19,6 +19,7 @@ RULE = ("typed Sid (natural typing, 20% search values) x overlay of 1-3 pairs dr
         "non-trivial = overlay changes the key set, or number of fitting types != 1, or uses '~' / None; distinct = (uri, overlay, form)")
 ASSUMPTIONS = [
     "query values are non-empty and free of URL metacharacters (% + & = # ; ?) and whitespace",
+    "a '?' between two pairs reads like '&' and get_with(query=) accepts a query starting with '?' (query_helper and the get_with documentation); an unapplied query text is kept verbatim",
     "when the overlay fits several types and the old type is not among them, a search Sid may take any of them (statement: 'several types for a non-search Sid' only)",
     "row 'several types, old type not among them, non-search' is unreachable when value patterns of one level are mutually exclusive (documented convention); counted, not required",
 ]
@@ -95,7 +96,11 @@ def cases(draw):
     n = 1 if form == "key_value" else draw(st.integers(1, 3))
     pairs = [draw(pair(m, t, f, allow_none=form in ("kwargs", "key_value"))) for _ in range(n)]
     use_uri = draw(st.booleans())
-    return {"s": s, "form": form, "pairs": pairs, "use_uri": use_uri, "warm": draw(st.integers(0, 2)) == 0}
+    # the library reads a '?' between two pairs like '&' (query_helper), and get_with documents a query "starting with ?"
+    joins = [draw(st.sampled_from(["&", "&", "&", "&", "?"])) for _ in range(max(0, n - 1))]
+    lead = form == "get_with_query" and draw(st.integers(0, 5)) == 0
+    return {"s": s, "form": form, "pairs": pairs, "use_uri": use_uri, "warm": draw(st.integers(0, 2)) == 0,
+            "joins": joins, "lead": lead}
 
 
 def evaluate(case) -> Outcome:
@@ -121,7 +126,17 @@ def evaluate(case) -> Outcome:
         if not qpairs:
             out.label("empty-query")
             return out
-        q = "&".join(f"{k}={v}" for k, v in qpairs)
+        joins = list(case.get("joins") or [])
+        q = ""
+        for i, (k, v) in enumerate(qpairs):
+            if i:
+                q += joins[i - 1] if i - 1 < len(joins) else "&"
+            q += f"{k}={v}"
+        if "?" in q:
+            out.label("question-mark-between-pairs")
+        if case.get("lead") and form == "get_with_query":
+            q = "?" + q
+            out.label("query-starting-with-question-mark")
         if case.get("warm"):
             # the same query text was used by a search before (searches parse, expand and re-serialise queries):
             # applying it to a Sid must not depend on that
